@@ -83,8 +83,8 @@ def select_reply(res):
 def mday_case_to_day(case):
     """(cls, stationary, per_day, per_site, upfront, budget, crews, consider_weather, reqs) ->
     crew-adapter day case + cost block"""
-    (cls, stationary, per_day, per_site, upfront, budget, crews, cw, reqs) = case
-    day = (cls, stationary, "none", 0, budget, crews, cw, reqs, upfront)
+    (cls, stationary, per_day, per_site, upfront, budget, crews, cw, reqs) = case[:9]
+    day = (cls, stationary, "none", 0, budget, crews, cw, reqs, upfront) + tuple(case[9:])
     return day, {"per_day": per_day, "per_site": per_site, "upfront": upfront}
 
 
@@ -94,7 +94,7 @@ def impl_mday(case):
 
 
 def mday_line(case):
-    (cls, stationary, per_day, per_site, upfront, budget, crews, cw, reqs) = case
+    (cls, stationary, per_day, per_site, upfront, budget, crews, cw, reqs) = case[:9]
     rq = C.reqs_token(reqs)
     e = C.ENV
     return "mday %d %s %d %d %d %d %d %d [%d,%d,%d,%d,%d,%d] %s" % (
@@ -117,9 +117,10 @@ def _pom(names):
     return pom
 
 
-def impl_row(first, ms, rep, nat, day=dt.date(2021, 3, 1)):
-    """ms = [(deploy, upfront)]; returns (cost, rep, nat, [method columns], full row)"""
-    names = ["m%d" % i for i in range(len(ms))]
+def impl_row(first, ms, rep, nat, day=dt.date(2021, 3, 1), names=None):
+    """ms = [(deploy, upfront)]; returns (cost, rep, nat, [method columns], full row).  `names`: the
+    method names (default m0, m1, ...)"""
+    names = list(names) if names else ["m%d" % i for i in range(len(ms))]
     pom = _pom(names)
     row = pom._init_ts_row(day)
     pom._update_ts_row_w_emis_info(new_row=row, ts_emis_info=TsEmisData(),
@@ -227,7 +228,8 @@ def prog_reply(rows):
 # ------------------------------------------------------------------------------------------------
 def impl_repair(start, nrd, delay, n, cost, events, intermittent=False, adur=1, idur=0):
     """per day (repair_cost, nat_repair_cost) booked in that day's EmisInfo by the real
-    RepairableEmission driven through the real Component; plus the emission"""
+    RepairableEmission driven through the real Component; plus the emission.  `cost` may be a list
+    (the code then draws one member with random.choice at booking time)"""
     from harness.adapters import emission as E
     from scheduling.schedule_dataclasses import TaggingInfo
 
@@ -246,6 +248,17 @@ def impl_repair(start, nrd, delay, n, cost, events, intermittent=False, adur=1, 
         per_day.append((info.repair_cost, info.nat_repair_cost, info.leaks_repaired, info.leaks_nat_repaired))
         status.append(em.get_status())
     return per_day, status, em
+
+
+def repair_summary(em, n):
+    """the emission's own output record (what goes to emissions_summary.csv): status, tagged by, and
+    the day index of 'Date Repaired or Expired'"""
+    from harness.adapters import emission as E
+    from constants.output_file_constants import EMIS_DATA_COL_ACCESSORS as eca
+
+    sd = em.get_summary_dict(E.summary_end_date(n))
+    d = sd[eca.DATE_REP_EXP]
+    return sd[eca.STATUS], sd[eca.TAGGED_BY], (None if d is None else (d - E.SIM_START).days)
 
 
 def repair_line(start, nrd, delay, n, cost, events, intermittent=False, adur=1, idur=0):
